@@ -481,7 +481,7 @@ def run_console_extras(work, vh, rep, tier):
     rep.extra["console"] = info
 
 
-ALLCFG = "morlock,hash,minimax,qsmat,qshash,turochamp,sargon,bernstein"
+ALLCFG = "morlock,hash,minimax,qsmat,qshash,turochamp,sargon,bernstein,forcing"
 
 
 @check("C03")
@@ -516,10 +516,10 @@ def c13(work, tier, seed):
     vh = vlib.build_harness(work)
     mc_search(work, rep, tier, ["WindowClips"])
     if tier == "quick":
-        jobs = [("c13a%d" % i, ["-mode", "c13", "-seed", seed * 100 + i, "-n", 10, "-depth", 3, "-cfgs", "hash,morlock,qshash,qsmat,turochamp", "-limit", 30000, "-windows", 24]) for i in range(6)]
+        jobs = [("c13a%d" % i, ["-mode", "c13", "-seed", seed * 100 + i, "-n", 10, "-depth", 3, "-cfgs", "hash,morlock,qshash,qsmat,turochamp,forcing", "-limit", 30000, "-windows", 24]) for i in range(6)]
         jobs += [("c13m%d" % i, ["-mode", "c13", "-mates", "-seed", seed * 100 + 50 + i, "-n", 5, "-depth", 5, "-cfgs", "hash,qshash", "-limit", 50000, "-windows", 30]) for i in range(6)]
     else:
-        jobs = [("c13a%d" % i, ["-mode", "c13", "-heavy", "-seed", seed * 100 + i, "-n", 120, "-depth", 3, "-cfgs", "hash,morlock,qshash,qsmat,turochamp,sargon,bernstein", "-limit", 60000, "-windows", 60]) for i in range(12)]
+        jobs = [("c13a%d" % i, ["-mode", "c13", "-heavy", "-seed", seed * 100 + i, "-n", 120, "-depth", 3, "-cfgs", "hash,morlock,qshash,qsmat,turochamp,sargon,bernstein,forcing", "-limit", 60000, "-windows", 60]) for i in range(12)]
         jobs += [("c13m%d" % i, ["-mode", "c13", "-mates", "-seed", seed * 100 + 50 + i, "-n", 40, "-depth", 5, "-cfgs", "hash,qshash,morlock", "-limit", 200000, "-windows", 60]) for i in range(12)]
     search_traces(work, vh, rep, ["C13"], jobs)
     require(rep, ["tree", "search", "qtree", "qsearch"], "C13")
